@@ -51,6 +51,30 @@ def classify(line):
     return "+".join(sorted(cls))
 
 
+# construct templates with two slots: slot X takes every string up to length 2 over SLOT, slot Y up to length 1 (quick) / 2 (thorough).
+# They reach lines of length 7-15 in exactly the shapes where the highlighter re-maps nested text onto the line.
+TEMPLATES = ["`X`Y", "`\\`X`Y", "`X\\`Y`", "$(X)Y", "$( X)Y", "\"X\"Y", "'X'Y", "$'X'Y", "${X}Y", "${a:-X}Y", "$((X))Y", "<<X\nY", "<<-X\nY", "<<\"X\"\nY", "<<''X\nY",
+             "a <<E X\nY\nE\n", "X <<E | Y\nb\nE", "a <<E <<F\nX\nE\nY\nF\n", "\"$(X)\"Y", "\"`X`\"Y", "$(`X`)Y", "`$(X)`Y", "{ X;}Y", "(X)Y", "X\\\nY", "a=X Y", "#X\nY", "a;X|Y",
+             "\"${a:-X}\"Y", "<(X)Y", "[[ X ]]Y", "((X))Y", "case X in Y) esac", "if X; then Y; fi", "X &> Y", "a <<<X Y", "X() { Y; }", "$\"X\"Y", "a 2>X Y", "é`X`éY"]
+SLOT = ["a", " ", "\n", "\"", "'", "`", "\\", "$", "<", "(", ")", "é", "#", ";"]
+
+
+def template_lines(ylen):
+    def strings(n):
+        out = [""]
+        layer = [""]
+        for _ in range(n):
+            layer = [p + c for p in layer for c in SLOT]
+            out += layer
+        return out
+    xs, ys = strings(2), strings(ylen)
+    for t in TEMPLATES:
+        for x in xs:
+            tx = t.replace("X", x)
+            for y in ys:
+                yield tx.replace("Y", y)
+
+
 def run(run):
     quick = run.tier == "quick"
     scale = getattr(run, "scale", 1.0)
@@ -77,6 +101,11 @@ def run(run):
     res = inproc.run_harness(["highlight-lines", "--file", path])
     absorb(run, res, "corpus")
     run.sample({"corpus_line": lines[len(lines) // 2]})
+    tl = list(template_lines(1 if quick else 2))
+    inproc.write_hex(path, tl)
+    res = inproc.run_harness(["highlight-lines", "--file", path, "--prefixes", "0"], timeout=3000)
+    absorb(run, res, "templates")
+    run.extra["templates"] = len(TEMPLATES)
     for i in range(run.shapes):
         if i >= 3:
             break
